@@ -67,10 +67,7 @@ func parseRecorder(rec *httptest.ResponseRecorder) *Obs {
 		o.Location = loc
 		if u, err := url.Parse(loc); err == nil {
 			o.Query = u.Query()
-			o.Fragment, _ = url.ParseQuery(u.Fragment)
-			if u.RawFragment != "" {
-				o.Fragment, _ = url.ParseQuery(u.RawFragment)
-			}
+			o.Fragment, _ = url.ParseQuery(u.EscapedFragment())
 		}
 		if e := o.Param("error"); e != "" {
 			o.Err = e
